@@ -1281,7 +1281,12 @@ func (c *Ctx) EmitSMT(assumps []*Term, goal *Term, header string, wantModel bool
 			}
 		}
 	}
+	seenA := map[*Term]bool{}
 	for _, a := range assumps {
+		if seenA[a] {
+			continue
+		}
+		seenA[a] = true
 		fmt.Fprintf(&sb, "(assert %s)\n", ref(a))
 	}
 	if goal != nil {
